@@ -1753,6 +1753,12 @@ func c07ConstructorsCase(c *mon.Case) {
 	var cbs []error
 	var entries atomic.Int64
 	errFirst := fmt.Errorf("inst-error-0")
+	switch r.IntN(3) {
+	case 1:
+		errFirst = context.Canceled
+	case 2:
+		errFirst = fmt.Errorf("inst-error-0: %w", context.Canceled)
+	}
 	ctor := func(key string) (keyed.Routine, int) {
 		return func(ctx context.Context) error {
 			n := entries.Add(1)
